@@ -5,6 +5,9 @@
    table <opA> <opB>      -> the race / panic keys the model predicts for the pair (or "none")
    locks <entry> <op,op>  -> acquire contexts, channel operations and spawns of the templates of these operations
                              (the paths of one Go entry function), canonical text compared with the AST pass
+   writes <entry> <op,op> -> every write of a tracked field with the lock classes held there ("F:w@Row:W+Sess:R");
+                             the AST pass also reports writes to any other field of the shared structs ("imm:T.f")
+   gocensus               -> the goroutines started by all `go` statements of the five packages
    unlocked <entry> <op,op> -> tracked fields accessed with no lock held / written under read locks only
    mix <op,op,...> <seed> -> "ok": the model's claim for a concurrent mix is that nothing outside the
                              keys predicted for its pairs can be observed (the harness reports
@@ -51,6 +54,19 @@ Definition dispatch (kind : string) (args : list string) : string :=
                   | Some l => out3 (static_locks l) "-" "-"
                   | None => BADARGS
                   end
+    | _ => BADARGS
+    end
+  else if String.eqb kind "writes" then
+    match args with
+    | [_; ops] => match ops_of_names ops with
+                  | Some l => out3 (static_writes l) "-" "-"
+                  | None => BADARGS
+                  end
+    | _ => BADARGS
+    end
+  else if String.eqb kind "gocensus" then
+    match args with
+    | [] => out3 static_gocensus "-" "-"
     | _ => BADARGS
     end
   else if String.eqb kind "unlocked" then
